@@ -42,11 +42,18 @@ def run_qry(tier, seed):
                 for fi, f in enumerate(s.fields):
                     where[id(f)] = [si + 1, fi + 1]
             for q, want in zip(queries, o["out"]):
-                text = q["root"] + ":" + "/".join(q["path"])
+                text = q["text"]                # the text form comes from the specification (Query!Text)
                 chk.count(1, traces=1)
                 try:
                     xp = Xpath(text)
-                    if str(xp) != text or xp.root != q["root"] or xp.path != q["path"]:
+                    # the same query built step by step: Appended(..) through append() and through the division operator
+                    alt = Xpath(q["root"] + ":" + q["path"][0])
+                    for n, name in enumerate(q["path"][1:]):
+                        if n % 2 == 0:
+                            alt.append(name)
+                        else:
+                            alt / name
+                    if str(xp) != text or xp.root != q["root"] or xp.path != q["path"] or str(alt) != text or alt.path != q["path"]:
                         got = "xpath-text-differs"
                     else:
                         r = fcp.get_xpath(xp)
